@@ -99,7 +99,7 @@ def components(inputs, by_barcodes):
 # How the harness drives the iterator and looks at what it returns.  The property is about the emitted groups, whichever
 # way a consumer takes them: one at a time, collected first and inspected afterwards, through the documented `next()`
 # method, modifying the lists it was handed, with the contig order given as a FASTA index file, or over real MafRecords.
-MODES = ["stream", "collect", "next", "consume", "fai", "records"]
+MODES = ["stream", "collect", "next", "consume", "fai", "records", "readers"]
 
 
 class RecordOf:
@@ -141,13 +141,29 @@ def drive(make, inputs, contigs, mode, limit, allele_columns=False):
     if mode == "records":
         ro = RecordOf(inputs, allele_columns)
         srcs, ids = ro.inputs, ro.ids
+    if mode == "readers":
+        # the inputs are MafReader objects themselves (what the iterator's signature names), each over a file whose header
+        # declares a sort order of its own WITHOUT contigs: the order of the iteration is the one given to the iterator
+        from maflib.reader import MafReader
+        from maflib.validation import ValidationStringency as VS
+        names = ["Hugo_Symbol", "Chromosome", "Start_Position", "End_Position", "Tumor_Sample_Barcode", "Matched_Norm_Sample_Barcode",
+                 "Reference_Allele", "Tumor_Seq_Allele1", "Tumor_Seq_Allele2"]
+        srcs = []
+        for k, inp in enumerate(inputs):
+            lines = ["#version gdc-1.0.0", "#annotation.spec lab-overlap", "#sort.order " + ("Coordinate", "BarcodesAndCoordinate", "Unsorted")[k % 3], "\t".join(names)]
+            for x in inp:
+                alts = list(getattr(x, "alts", ["C"]))
+                lines.append("\t".join(["r%d" % x.rid, str(x.chromosome), str(x.start), str(x.end), str(x.tumor), str(x.normal),
+                                        str(getattr(x, "ref", "A")), str(getattr(x, "ref", "A")), alts[0] if alts else ""]))
+            srcs.append(MafReader(lines=lines, validation_stringency=VS.Silent))
+        ids = lambda slot: [int(r["Hugo_Symbol"].value[1:]) for r in slot]   # noqa: E731
     tmp = None
     try:
         if mode == "fai":
             fd, tmp = tempfile.mkstemp(suffix=".fai", prefix="verif_overlap_")
             with os.fdopen(fd, "w") as h:
                 h.write("".join("%s\t1000\t%d\t60\t61\n" % (c, 10 + 1017 * n) for n, c in enumerate(contigs)))
-        it = make([iter(x) for x in srcs], tmp)
+        it = make(srcs if mode == "readers" else [iter(x) for x in srcs], tmp)
         groups = []
         if mode == "collect":
             held = list(itertools.islice(it, limit + 1))          # all groups first ...
@@ -250,7 +266,8 @@ MODE_TEXT = {"stream": "each group looked at as soon as it is returned",
              "next": "driven through the next() method, groups looked at after the last one",
              "consume": "the consumer empties the lists it was handed before asking for the next group",
              "fai": "the contig order given as a FASTA index file (fasta_index=...)",
-             "records": "the inputs are real MafRecord objects"}
+             "records": "the inputs are real MafRecord objects",
+             "readers": "the inputs are MafReader objects over files whose headers declare a sort order without contigs"}
 
 
 def eval_sorted(inputs, contigs, by_barcodes, modes=None):
@@ -298,6 +315,60 @@ def eval_disorder(inputs, contigs, by_barcodes, modes=None):
                 f.update(mode=mode, what="%s (%s)" % (f["what"], MODE_TEXT[mode]))
             failures.append(f)
     return exc0, failures
+
+
+OPT_SCRIPT = r"""
+import json, sys
+sys.path.insert(0, sys.argv[1])
+from maflib.locatable import Locatable
+from maflib.overlap_iter import LocatableOverlapIterator
+cases = json.loads(sys.argv[2])
+res = []
+for contigs, inputs in cases:
+    try:
+        it = LocatableOverlapIterator([iter([Locatable(c, s, e) for (c, s, e) in inp]) for inp in inputs], contigs=contigs, by_barcodes=False)
+        groups = [[[(x.chromosome, x.start, x.end) for x in slot] for slot in g] for g in it]
+        res.append({"groups": groups})
+    except Exception as e:
+        res.append({"exc": type(e).__name__})
+print(json.dumps(res))
+"""
+
+OPT_CASES = [
+    # (contigs, inputs, in order?)
+    (None, [[("1", 5, 6), ("1", 3, 4)]], False),                       # a start that goes down
+    (None, [[("1", 1, 2), ("1", 3, 4)], [("2", 1, 1), ("1", 9, 9)]], False),   # a chromosome that goes down, second input
+    (["2", "1"], [[("1", 1, 2), ("2", 3, 4)]], False),                 # against the supplied contig order
+    (None, [[("1", 3, 9), ("1", 3, 4)]], False),                       # an end that goes down
+    (None, [[("1", 1, 2), ("1", 2, 4)], [("1", 4, 4), ("2", 1, 1)]], True),
+]
+
+
+def eval_optimised(flag):
+    """The same iterator in an interpreter started with -O / -OO (assert statements are not executed there): an
+    out-of-order input is still reported, and sorted inputs give the groups they give without the flag."""
+    import json
+    import subprocess
+    import sys
+    from ..common import REPO
+    cases = [[c, [[list(x) for x in inp] for inp in inputs]] for c, inputs, _ok in OPT_CASES]
+
+    def run_py(flags):
+        p = subprocess.run([sys.executable] + flags + ["-c", OPT_SCRIPT, REPO, json.dumps(cases)], stdout=subprocess.PIPE, stderr=subprocess.PIPE, text=True, timeout=120)
+        return json.loads(p.stdout.strip().splitlines()[-1]) if p.returncode == 0 and p.stdout.strip() else None
+    plain, opt = run_py([]), run_py([flag])
+    where = {"kind": "optimised-interpreter", "flag": flag}
+    if plain is None or opt is None:
+        return [dict(where, what="the overlap iterator could not be run in a child interpreter (%s)" % ("plain" if plain is None else flag))]
+    fails = []
+    for (contigs, inputs, ok), a, b in zip(OPT_CASES, plain, opt):
+        if not ok and "exc" not in b:
+            fails.append(dict(where, contigs=contigs, inputs=[[list(x) for x in inp] for inp in inputs],
+                              what="an out-of-order input was not reported by an interpreter started with %s (it returned %d group(s))" % (flag, len(b["groups"]))))
+        elif ok and a != b:
+            fails.append(dict(where, contigs=contigs, inputs=[[list(x) for x in inp] for inp in inputs],
+                              what="sorted inputs give other groups in an interpreter started with %s" % flag))
+    return fails[:1]
 
 
 def run(ctx):
@@ -363,6 +434,11 @@ def run(ctx):
         exc, failures = eval_disorder(inputs, contigs, by_barcodes)
         out.failures += failures
         out.distribution["disorder:" + str(exc)] += 1
+    for flag in ("-O", "-OO"):
+        out.evaluations += 1
+        out.failures += eval_optimised(flag)
+        out.distribution["interpreter started with " + flag] += 1
+        out.nontrivial.add(("optimised", flag))
     return out
 
 
@@ -390,6 +466,13 @@ def stored_recs(failure):
 
 def replay_case(ctx, failure):
     """Re-evaluate the stored inputs on the current implementation; the failures they produce now ([] = property holds)."""
+    if failure.get("kind") == "optimised-interpreter" and failure.get("flag") in ("-O", "-OO"):
+        fails = eval_optimised(failure["flag"])
+        print("replay C11: child interpreters (plain and %s) run LocatableOverlapIterator(by_barcodes=False) over %d small configurations of plain Locatable objects, %d of them with an out-of-order input" % (
+            failure["flag"], len(OPT_CASES), sum(1 for c in OPT_CASES if not c[2])))
+        for x in fails:
+            print("  oracle: %s; contigs %s, inputs %s" % (x["what"], x.get("contigs"), x.get("inputs")))
+        return fails
     recs = stored_recs(failure)
     if recs is None or "by_barcodes" not in failure:
         return None
